@@ -46,7 +46,7 @@ PROPS = {
                  "operation; distinct by (operation, prior state, configuration, point name)."),
         "assumptions": ["hook points cover the filesystem steps of the operations (hook commits in MANIFEST.hooks)"],
         "jobs": [
-            {"run": "TestC11A", "quick": 96, "thorough": 1600, "shards_quick": 8, "shards_thorough": 16},
+            {"run": "TestC11A", "quick": 320, "thorough": 1600, "shards_quick": 8, "shards_thorough": 16},
         ],
     },
     "C18": {
